@@ -187,8 +187,9 @@ UNITS = [OneName(), UnionByInclusionExclusion(), ChainDefaultRate()]
 def LATE_UNITS():
     # "default time from the first jump below the threshold" (underlying.py) is part of C19's mechanism: the default-region
     # states of the chain are exactly those the default-time underlyings flag; the contracts live in c17
-    from contracts import c17
-    return [c17.DefaultTimes()]
+    from contracts import c17, c13
+    # "thresholds placed on cell boundaries (as the credit grid does)": the credit-grid constructor contract lives in c13
+    return [c17.DefaultTimes(), c13.CreditInit()]
 
 ASSUMPTIONS = ["A1: floats are mathematical reals", "A3: brentq returns a root inside its bracket (implied spread); bracket adequacy not checked",
                "sign conventions of margin_tail_integral / tail_integrals at negative arguments (+mass of the joint default set for two names, (-1)^d for d names) are C12's contract"]
